@@ -85,6 +85,8 @@ impl FileFormatter {
         buf: &'a mut Vec<u8>,
     ) -> anyhow::Result<DecodedFile<'a>> {
         file.read_to_end(buf)?;
+        #[cfg(feature = "verif_hooks")]
+        verif::note_buf_len(buf.len());
 
         let (encoding, (bom, contents)) = match Encoding::for_bom(buf) {
             Some((encoding, bom_length)) => {
@@ -141,6 +143,8 @@ impl FileFormatter {
         paths
             .into_par_iter()
             .map_init(Vec::<u8>::new, |input_buf, file_path| {
+                #[cfg(feature = "verif_hooks")]
+                let verif_buf_len_before_clear = input_buf.len();
                 input_buf.clear();
 
                 let file_path = file_path?;
@@ -151,6 +155,14 @@ impl FileFormatter {
                 let decoded_file = self
                     .decode_file(&mut file, file_path.display(), input_buf)
                     .with_context(|| format!("failed to read '{}'", file_path.display()))?;
+                #[cfg(feature = "verif_hooks")]
+                verif::file_event(
+                    &file_path,
+                    verif_buf_len_before_clear,
+                    decoded_file.bom.map_or(0, |b| b.len()),
+                    decoded_file.encoding.name(),
+                    decoded_file.contents.len(),
+                );
 
                 let mut inner_cursors: Vec<_> = cursors.iter().map(|c| Cursor(*c)).collect();
 
@@ -190,16 +202,24 @@ impl FileFormatter {
                         "skipping writing to '{}' because it is already formatted",
                         file_path.display()
                     );
+                    #[cfg(feature = "verif_hooks")]
+                    verif::write_event(file_path, "SkipUnchanged", 0);
                     return Ok(());
                 }
                 file.seek(SeekFrom::Start(0)).with_context(|| {
                     format!("failed to seek to start of file: '{}'", file_path.display())
                 })?;
+                #[cfg(feature = "verif_hooks")]
+                verif::write_event(file_path, "Seek", 0);
                 let new_len = Self::write_file(&mut *file, decoded_file, formatted_output)
                     .with_context(|| format!("failed to write to '{}'", file_path.display()))?;
+                #[cfg(feature = "verif_hooks")]
+                verif::write_event(file_path, "Write", new_len);
                 file.set_len(new_len).with_context(|| {
                     format!("failed to set file length: '{}'", file_path.display())
                 })?;
+                #[cfg(feature = "verif_hooks")]
+                verif::write_event(file_path, "SetLen", new_len);
                 Ok(())
             },
             error_handler,
@@ -389,6 +409,102 @@ impl FileFormatter {
         if let Err(e) = inner() {
             error_handler(e);
         }
+    }
+}
+
+/// Verification hooks: one line per event appended to the file named by `PASFMT_VERIF_TRACE`.
+///
+/// Events of one worker thread are ordered by a per-thread sequence number taken inside the hook.
+#[cfg(feature = "verif_hooks")]
+mod verif {
+    use std::cell::Cell;
+    use std::io::Write;
+    use std::path::Path;
+    use std::sync::Mutex;
+
+    static TRACE: Mutex<Option<std::fs::File>> = Mutex::new(None);
+    thread_local! {
+        static SEQ: Cell<u64> = const { Cell::new(0) };
+    }
+
+    fn emit(line: String) {
+        let Ok(path) = std::env::var("PASFMT_VERIF_TRACE") else {
+            return;
+        };
+        let mut guard = TRACE.lock().unwrap();
+        if guard.is_none() {
+            *guard = std::fs::OpenOptions::new()
+                .create(true)
+                .append(true)
+                .open(path)
+                .ok();
+        }
+        if let Some(f) = guard.as_mut() {
+            let _ = writeln!(f, "{line}");
+        }
+    }
+
+    thread_local! {
+        static BUF_LEN: Cell<usize> = const { Cell::new(0) };
+    }
+
+    /// The length of the worker's input buffer right after a file was read into it.
+    pub(super) fn note_buf_len(len: usize) {
+        BUF_LEN.with(|b| b.set(len));
+    }
+
+    fn next_seq() -> u64 {
+        SEQ.with(|s| {
+            s.set(s.get() + 1);
+            s.get()
+        })
+    }
+
+    fn json_str(s: &str) -> String {
+        let mut out = String::from("\"");
+        for c in s.chars() {
+            match c {
+                '"' => out.push_str("\\\""),
+                '\\' => out.push_str("\\\\"),
+                c if (c as u32) < 0x20 => out.push_str(&format!("\\u{:04x}", c as u32)),
+                c => out.push(c),
+            }
+        }
+        out.push('"');
+        out
+    }
+
+    pub(super) fn file_event(
+        path: &Path,
+        buf_len_before_clear: usize,
+        bom_len: usize,
+        encoding: &str,
+        decoded_len: usize,
+    ) {
+        let file_len = std::fs::metadata(path).map(|m| m.len()).unwrap_or(0);
+        emit(format!(
+            "{{\"ev\":\"File\",\"worker\":{},\"seq\":{},\"path\":{},\"buf_before_clear\":{},\"buf_len\":{},\"file_len\":{},\"bom_len\":{},\"encoding\":{},\"decoded_len\":{}}}",
+            json_str(&format!("{:?}", std::thread::current().id())),
+            next_seq(),
+            json_str(&path.display().to_string()),
+            buf_len_before_clear,
+            BUF_LEN.with(|b| b.get()),
+            file_len,
+            bom_len,
+            json_str(encoding),
+            decoded_len,
+        ));
+    }
+
+    pub(super) fn write_event(path: &Path, what: &str, n: u64) {
+        emit(format!(
+            "{{\"ev\":{},\"worker\":{},\"seq\":{},\"path\":{},\"n\":{}}}",
+            json_str(what),
+            json_str(&format!("{:?}", std::thread::current().id())),
+            next_seq(),
+            json_str(&path.display().to_string()),
+            n,
+        ));
     }
 }
 
